@@ -19,6 +19,7 @@ pub use crate::vspec_nonce::*;
 pub use crate::vspec_codec::*;
 pub use crate::vspec_batch::*;
 pub use crate::vspec_agg::*;
+pub use crate::vspec_pclauses::*;
 verus! {
 //@module_serves ALL
 
